@@ -999,7 +999,7 @@ class Interp:
         w, Spam = self.w, self.Spam
         resume = kernel.StepBudget.pause() if n > 10000 else (lambda: None)
         try:
-            with kernel.budget(60 * n + OP_BUDGET):
+            with kernel.budget(400 * n + OP_BUDGET):
                 for _ in range(n):
                     w.add_processor(Spam())
                 w.remove_processor(Spam)
@@ -2029,8 +2029,8 @@ def generate(prop, run_seed, tier='quick', tolerate=frozenset()):
         for pi, pc in enumerate(cfg['pinsts']):
             firsts.setdefault(pc, pi)
         types = sorted(firsts.values())
-        before = [['add_proc', pi, q] for pi, q in zip(types[:2], (1, 3))]
-        after = [['add_proc', pi, q] for pi, q in zip(types[2:4], (0, 2))]
+        before = [['add_proc', pi, q] for pi, q in zip(types[0::2], (1, 3))]
+        after = [['add_proc', pi, q] for pi, q in zip(types[1::2], (0, 2))]
         k = crng.randint(len(ops) // 3, len(ops))
         ops[k:k] = before + [spam] + after + [['process', 1]]
     # re-entry from callbacks of a release (silent batches)
